@@ -1,6 +1,6 @@
 """Structure theorems for finiteness, polynomial growth and regular insertion encodings, written with
 forbidden patterns (validated once against the 'two monotone runs' description, see DESIGN)."""
-from . import classical as C
+from . import classical as C  # noqa: F401  (also used by callers as K.C)
 
 # horizontal juxtapositions of two monotone classes
 H_II = [(2, 1, 0), (1, 0, 3, 2), (2, 0, 3, 1)]  # increasing | increasing
